@@ -154,7 +154,7 @@ func run(c *lib.Ctx) {
 		c.Inconclusive("rig: " + err.Error())
 		return
 	}
-	defer e.r.Close()
+	defer func() { e.r.Close() }()
 	used := map[uint32]bool{}
 
 	if c.Replay != nil {
@@ -178,7 +178,20 @@ func run(c *lib.Ctx) {
 	n := c.N(12800, 304000)
 	minimised := map[string]int{}
 	done := 0
+	nhist := 0
 	for done < n {
+		// a fresh teamserver every 100 histories: its session table, event list and
+		// database only grow, and every operation pays for their size. The old one is
+		// abandoned, not shut down (closing a service connection is C16's subject).
+		if nhist++; nhist%100 == 0 {
+			e.r.Close() // chdir away and remove the old temp root first: the new rig chdirs into its own
+			ne, err := newEnv(c)
+			if err != nil {
+				c.Inconclusive("rig: " + err.Error())
+				return
+			}
+			e = ne
+		}
 		nops := 24 + c.Rng.Intn(40)
 		if nops > n-done {
 			nops = n - done
